@@ -1,0 +1,63 @@
+//! Verification event tap (only compiled with the `verif-hooks` feature).
+//!
+//! The crate only *emits* events; every monitor lives outside of the repository.
+
+use std::cell::RefCell;
+
+/// An event observed inside the compiler.
+#[derive(Debug, Clone, Copy)]
+pub enum Event<'a> {
+    /// The parser touched its cursor (`kind` names the primitive).
+    ParseStep {
+        kind: &'static str,
+        cur_index: usize,
+        len: usize,
+        weight: usize,
+        n_warnings: usize,
+    },
+    /// The parser reported (or restored) a position.
+    Pos {
+        kind: &'static str,
+        whole: &'a str,
+        cur_index: usize,
+        line: u32,
+        utf16_col: u32,
+    },
+    /// The code generator started a statement.
+    GenStep,
+    /// The code generator created a local identifier.
+    GenIdent { name: &'a str },
+    /// The stringifier wrote a string segment.
+    PrintStep { len: usize },
+}
+
+thread_local! {
+    static TAP: RefCell<Option<Box<dyn FnMut(&Event)>>> = RefCell::new(None);
+}
+
+/// Install an event tap for the current thread (replacing any previous one).
+pub fn set_tap(f: Box<dyn FnMut(&Event)>) {
+    TAP.with(|tap| {
+        *tap.borrow_mut() = Some(f);
+    });
+}
+
+/// Remove the event tap of the current thread.
+pub fn clear_tap() {
+    TAP.with(|tap| {
+        if let Ok(mut tap) = tap.try_borrow_mut() {
+            *tap = None;
+        }
+    });
+}
+
+#[inline]
+pub(crate) fn emit(ev: Event) {
+    TAP.with(|tap| {
+        if let Ok(mut tap) = tap.try_borrow_mut() {
+            if let Some(f) = tap.as_mut() {
+                f(&ev);
+            }
+        }
+    });
+}
